@@ -48,6 +48,7 @@ class EpollLoop : public CommonLoop {
     inline int epollFd() const { return epoll_fd_; }
 
     EpollFdSharedData* refFdSharedData(int fd);
+    EpollFdSharedData* findFdSharedData(int fd) const;  //!< nullptr if there is none
     void unrefFdSharedData(int fd);
 
   protected:
